@@ -105,3 +105,189 @@ package jsonpath
 //@   loop 1 invariant 0 <= index && index <= srcLength
 //@   loop 1 invariant forall k :: 0 <= k && k < index ==> result[k] == k
 //@   loop 1 decreases srcLength - index
+
+// ---------------------------------------------------------------------------------------
+// Evaluation time: shared predicates
+// ---------------------------------------------------------------------------------------
+
+// State axioms about package globals (never written after package initialisation; every store
+// needs ownership, and read-only locations are never owned).
+//@ axiom globals: len(emptyList) == 1 && emptyList[0] == emptyEntity && RO(emptyList) && len(fullList) == 1 && fullList[0] == true && RO(fullList) && arr(emptyList) != arr(fullList) && arr(emptyList) != 0 && arr(fullList) != 0 && off(emptyList) == 0 && off(fullList) == 0
+//@ axiom pools: resultSyncPool != nil && sortSliceSyncPool != nil && resultSyncPool != sortSliceSyncPool
+
+// extVal: a value whose backing array (if it is a list) is outside library ownership.  Read-only
+// arrays and all maps contain only such values (closure of the document and of user data).
+//@ spec extVal(v any) bool = isType(v, []interface{}) ==> RO(asType(v, []interface{}))
+//@ axiom extClosureList: forall a, i {A_Val[a][i]} :: RO(a) ==> extVal(A_Val[a][i])
+//@ axiom extClosureMap: forall m, k Str {M_val[m][k]} :: extVal(M_val[m][k])
+
+//@ smt (declare-fun WFnode (Val) Bool)
+//@ smt (declare-fun WFquery (Val) Bool)
+//@ smt (declare-fun WFsub (Val) Bool)
+//@ smt (declare-fun chainSingle (Val) Bool)
+//@ smt (declare-fun height (Val) Int)
+//@ smt (declare-fun hgt (Int) Int)
+//@ smt (declare-fun qheight (Val) Int)
+
+//@ spec rtOK(r *errorBasicRuntime) bool = r != nil && r.node != nil
+//@ spec errRT(b *syntaxBasicNode) bool = rtOK(b.errorRuntime)
+//@ spec WFbasic(b *syntaxBasicNode) bool = b != nil && hgt(b) >= 0 && (b.next != nil ==> WFnode(b.next) && height(b.next) < hgt(b))
+//@ spec errOK(e errorRuntime) bool = (isType(e, ErrorMemberNotExist) && rtOK(asType(e, ErrorMemberNotExist).errorBasicRuntime)) || (isType(e, ErrorTypeUnmatched) && rtOK(asType(e, ErrorTypeUnmatched).errorBasicRuntime)) || (isType(e, ErrorFunctionFailed) && rtOK(asType(e, ErrorFunctionFailed).errorBasicRuntime))
+//@ spec errNode(e errorRuntime) *syntaxBasicNode = isType(e, ErrorMemberNotExist) ? asType(e, ErrorMemberNotExist).errorBasicRuntime.node : (isType(e, ErrorTypeUnmatched) ? asType(e, ErrorTypeUnmatched).errorBasicRuntime.node : asType(e, ErrorFunctionFailed).errorBasicRuntime.node)
+//@ spec ownsBuf(c *bufferContainer) bool = c != nil && held(c) && mine(c) && wf(c.result) && off(c.result) == 0 && (arr(c.result) == 0 || (mine(c.result) && !escaped(c.result)))
+//@ spec newBuf(c *bufferContainer) bool = ownsBuf(c) && !wasHeld(c) && !wasMine(c) && (arr(c.result) == 0 || !wasMine(c.result)) && len(c.result) == 0
+//@ spec newKeys(p *sort.StringSlice) bool = ownsKeys(p) && !wasHeld(p) && !wasMine(p) && (arr(poolSlice(p)) == 0 || !wasMine(poolSlice(p)))
+//@ spec ownsKeys(p *sort.StringSlice) bool = p != nil && held(p) && mine(p) && wf(poolSlice(p)) && (arr(poolSlice(p)) == 0 || (mine(poolSlice(p)) && !escaped(poolSlice(p))))
+
+// WF of the syntax tree: WFnode(v) ==> WFnodeDef(v), unfolded once per method for its receiver
+// (clause `unfold`), never by a quantified axiom (that would be a matching loop along `next`).
+//@ spec WFunionAt(u *syntaxUnionQualifier) bool = WFbasic(u.syntaxBasicNode) && errRT(u.syntaxBasicNode) && (forall k {u.subscripts[k]} :: 0 <= k && k < len(u.subscripts) ==> WFsub(u.subscripts[k]))
+//@ spec WFrootDef(n *syntaxRootIdentifier) bool = n != nil && height(n) == hgt(n.syntaxBasicNode) && WFbasic(n.syntaxBasicNode)
+//@ spec WFcurrentDef(n *syntaxCurrentRootIdentifier) bool = n != nil && height(n) == hgt(n.syntaxBasicNode) && WFbasic(n.syntaxBasicNode)
+//@ spec WFsingleDef(n *syntaxChildSingleIdentifier) bool = n != nil && height(n) == hgt(n.syntaxBasicNode) && WFbasic(n.syntaxBasicNode) && errRT(n.syntaxBasicNode)
+//@ spec WFwildcardDef(n *syntaxChildWildcardIdentifier) bool = n != nil && height(n) == hgt(n.syntaxBasicNode) && WFbasic(n.syntaxBasicNode) && errRT(n.syntaxBasicNode)
+//@ spec WFunionDef(n *syntaxUnionQualifier) bool = n != nil && height(n) == hgt(n.syntaxBasicNode) && WFunionAt(n)
+//@ spec WFmultiDef(n *syntaxChildMultiIdentifier) bool = n != nil && height(n) == hgt(n.syntaxBasicNode) && WFbasic(n.syntaxBasicNode) && errRT(n.syntaxBasicNode) && (forall k {n.identifiers[k]} :: 0 <= k && k < len(n.identifiers) ==> n.identifiers[k] != nil && WFnode(n.identifiers[k]) && height(n.identifiers[k]) < height(n)) && (n.isAllWildcard ==> WFunionAt(n.unionQualifier) && WFnode(n.unionQualifier) && height(n.unionQualifier) < height(n))
+//@ spec WFrecursiveDef(n *syntaxRecursiveChildIdentifier) bool = n != nil && height(n) == hgt(n.syntaxBasicNode) && WFbasic(n.syntaxBasicNode) && errRT(n.syntaxBasicNode) && n.syntaxBasicNode.next != nil
+//@ spec WFfilterDef(n *syntaxFilterQualifier) bool = n != nil && height(n) == hgt(n.syntaxBasicNode) && WFbasic(n.syntaxBasicNode) && errRT(n.syntaxBasicNode) && n.query != nil && WFquery(n.query) && 0 <= qheight(n.query) && qheight(n.query) < height(n)
+//@ spec WFffuncDef(n *syntaxFilterFunction) bool = n != nil && height(n) == hgt(n.syntaxBasicNode) && WFbasic(n.syntaxBasicNode) && errRT(n.syntaxBasicNode) && n.function != nil
+//@ spec WFafuncDef(n *syntaxAggregateFunction) bool = n != nil && height(n) == hgt(n.syntaxBasicNode) && WFbasic(n.syntaxBasicNode) && errRT(n.syntaxBasicNode) && n.function != nil && n.param != nil && WFnode(n.param) && height(n.param) < height(n)
+
+// WF of subscripts
+//@ spec WFindexDef(n *syntaxIndexSubscript) bool = n != nil
+//@ spec WFposDef(n *syntaxSlicePositiveStepSubscript) bool = n != nil && n.start != nil && n.end != nil && n.step != nil
+//@ spec WFnegDef(n *syntaxSliceNegativeStepSubscript) bool = n != nil && n.start != nil && n.end != nil && n.step != nil
+
+// ---------------------------------------------------------------------------------------
+// Pools (sync.Pool is a dependency: assumed contract, ghost state held/mine/escaped)
+// ---------------------------------------------------------------------------------------
+
+//@ extern (*sync.Pool).Get
+//@   modifies heap:G_held, heap:G_mine, heap:G_esc, heap:alloc, heap:F_bufferContainer_result, heap:C_Slice
+//@   ensures p == resultSyncPool ==> isType(ret, *bufferContainer) && newBuf(asType(ret, *bufferContainer))
+//@   ensures p == sortSliceSyncPool ==> isType(ret, *sort.StringSlice) && newKeys(asType(ret, *sort.StringSlice))
+
+//@ extern (*sync.Pool).Put
+//@   requires p == resultSyncPool ==> isType(x, *bufferContainer) && asType(x, *bufferContainer) != nil && len(asType(x, *bufferContainer).result) == 0
+//@   requires p == sortSliceSyncPool ==> isType(x, *sort.StringSlice) && asType(x, *sort.StringSlice) != nil
+//@   requires p == resultSyncPool || p == sortSliceSyncPool
+//@   releases asType(x, *bufferContainer) when p == resultSyncPool
+//@   releases asType(x, *sort.StringSlice) when p == sortSliceSyncPool
+
+//@ extern (sort.StringSlice).Sort
+//@   modifies heap:A_Str, elems(x)
+
+//@ extern reflect.TypeOf
+//@   ensures i != nil ==> ret != nil
+//@   pure
+
+//@ interface Type.String
+//@   pure
+
+//@ func getContainer
+//@   props C03 C04 C05 C06 C20
+//@   ensures got: newBuf(ret)
+
+//@ func putContainer
+//@   props C03 C04 C05 C06 C20
+//@   requires ownsBuf(container)
+//@   modifies container.result
+//@   releases container
+
+//@ func getSortedKeys
+//@   props C03 C05 C06 C07 C20
+//@   ensures owns: ownsKeys(ret)
+//@   ensures new: newKeys(ret)
+//@   ensures length: len(poolSlice(ret)) == len(srcMap)
+//@   loop 1 invariant 0 <= index && index == rangepos && index <= length && held(sortKeys) && mine(sortKeys)
+//@   loop 1 invariant len(poolSlice(sortKeys)) == length && (arr(poolSlice(sortKeys)) == 0 || mine(poolSlice(sortKeys)))
+//@   loop 1 decreases length - index
+
+//@ func putSortSlice
+//@   props C03 C05 C06 C07 C20
+//@   requires sortKeys != nil ==> ownsKeys(sortKeys)
+//@   releases sortKeys when sortKeys != nil
+
+// ---------------------------------------------------------------------------------------
+// syntaxNode.retrieve: thin contract (safety, ownership, ok/err shape)
+// ---------------------------------------------------------------------------------------
+
+//@ template retrieveFrame
+//@   requires container != nil && ownsBuf(container) && extVal(root)
+//@   modifies container.result, elems(container.result)
+//@   ensures owns: ownsBuf(container)
+//@   ensures buf: arr(container.result) == old(arr(container.result)) || fresh(container.result)
+//@   ensures prefix: len(container.result) >= old(len(container.result)) && (forall i {elemAt(container.result, i)} :: 0 <= i && i < old(len(container.result)) ==> elemAt(container.result, i) == old(elemAt(container.result, i)))
+//@   ensures ext: forall i {elemAt(container.result, i)} :: old(len(container.result)) <= i && i < len(container.result) ==> extVal(elemAt(container.result, i))
+//@   ensures ok: ret == nil ==> len(container.result) >= 1
+//@   ensures err: ret != nil ==> len(container.result) == old(len(container.result)) && errOK(ret)
+
+//@ interface syntaxNode.retrieve
+//@   requires WFnode(this) && extVal(current)
+//@   include retrieveFrame
+//@   decreases 2*height(this) + 1
+
+//@ interface syntaxNode.isValueGroup
+//@   requires WFnode(this)
+//@   pure
+
+//@ interface errorRuntime.getSyntaxNode
+//@   requires errOK(this)
+//@   ensures ret == errNode(this)
+//@   pure
+
+// user functions: return normally, may keep their argument, do not write library or document memory
+//@ functype func(interface{}) (interface{}, error)
+//@   ensures extVal(ret0)
+//@ functype func([]interface{}) (interface{}, error)
+//@   modifies elems(arg0)
+//@   ensures escaped(arg0) && extVal(ret0)
+
+//@ func (*syntaxBasicNode).retrieveAnyValueNext
+//@   props C03 C04 C05 C06 C20
+//@   decreases 2*hgt(i)
+//@   requires WFbasic(i) && extVal(nextSrc)
+//@   include retrieveFrame
+
+//@ func (*syntaxBasicNode).retrieveMapNext
+//@   props C03 C04 C05 C06 C20
+//@   decreases 2*hgt(i)
+//@   requires WFbasic(i) && errRT(i)
+//@   include retrieveFrame
+
+//@ func (*syntaxBasicNode).retrieveListNext
+//@   props C03 C04 C05 C06 C20
+//@   decreases 2*hgt(i)
+//@   requires WFbasic(i) && 0 <= index && index < len(currentList) && RO(currentList)
+//@   include retrieveFrame
+
+//@ func (*syntaxBasicNode).addDeepestError
+//@   props C03 C15 C20
+//@   requires errOK(err) && (deepestTextLen != 0 ==> deepestError != nil) && (deepestError != nil ==> errOK(deepestError))
+//@   ensures errOK(ret1) && (ret0 != 0 ==> ret1 != nil)
+//@   pure
+
+//@ func (*syntaxRootIdentifier).retrieve
+//@   props C03 C04 C05 C06 C20
+//@   implements syntaxNode.retrieve
+//@   unfold WFnode(this) ==> WFrootDef(i)
+
+//@ func (*syntaxCurrentRootIdentifier).retrieve
+//@   props C03 C04 C05 C06 C20
+//@   implements syntaxNode.retrieve
+//@   unfold WFnode(this) ==> WFcurrentDef(i)
+
+//@ func (*syntaxChildSingleIdentifier).retrieve
+//@   props C03 C04 C05 C06 C20
+//@   implements syntaxNode.retrieve
+//@   unfold WFnode(this) ==> WFsingleDef(i)
+
+//@ func (*syntaxFilterFunction).retrieve
+//@   props C03 C04 C05 C06 C20
+//@   implements syntaxNode.retrieve
+//@   unfold WFnode(this) ==> WFffuncDef(f)
+
+//@ func (*syntaxAggregateFunction).retrieve
+//@   props C03 C04 C05 C06 C20
+//@   implements syntaxNode.retrieve
+//@   unfold WFnode(this) ==> WFafuncDef(f)
